@@ -21,3 +21,4 @@ python3 /verif/translator/drivers.py /repo /verif/lean/Tv/GenDrv.lean >/dev/null
 python3 /verif/translator/gens.py /repo /verif/lean/Tv/GenLin.lean >/dev/null
 python3 /verif/translator/parts.py /repo /verif/lean/Tv/GenPart.lean >/dev/null
 python3 /verif/translator/fdiff.py /repo /verif/lean/Tv/GenFd.lean >/dev/null
+python3 /verif/translator/finals.py /repo /verif/lean/Tv/GenFin.lean >/dev/null
